@@ -52,9 +52,9 @@ class Limits:
         self.mdiv_Bs = ()          # ceil((M / B) * 1000): admitted divisors B (bytes per core)
         self.mdiv_pmax = 10        # buckets (250*2^(p-1), 250*2^p], p <= pmax, and one open top bucket
         self.mdiv_m_bits = 44      # 0 <= M < 2^bits
-        self.clog2_bits = 31       # ceil(log2(X / 1000)): 1 <= X < 2^bits
+        self.clog2_bits = 28       # ceil(log2(X / 1000)): 1 <= X < 2^bits  (bits <= 30: table ends at 1000*2^21)
         self.scale_Bs = ()         # int((X / 1000) * B): admitted B; X in {250 * 2^j, 0 <= j <= scale_jmax}
-        self.scale_jmax = 23
+        self.scale_jmax = 21       # x*B must stay below 2^63 in the lemma: x <= 250*2^21 < 2^29, B < 2^34
         self.cdiv_bits = 47        # ceil(A / 2^a / 2^b / ...): 0 <= A < 2^bits
         self.__dict__.update(kw)
 
@@ -85,31 +85,52 @@ def make_helpers(lim):
         # but it always lies in the same power-of-two bucket (250*2^(p-1), 250*2^p] as the exact value  [lemma mdiv].
         # The helper returns an ARBITRARY member of that bucket (chosen by the slack NONDET[b], a symbolic input of the
         # harness): an over-approximation of the float result, sound for universally quantified properties.
+        # Written without branches on symbolic values (sums of comparison results) so that CrossHair does not fork.
         if not (_is_int(m) and _is_int(b) and k == 1000):
             raise CutRangeError('mdiv operands not int / factor not 1000')
         if b not in lim.mdiv_Bs or not 0 <= m < (1 << lim.mdiv_m_bits):
             raise CutRangeError('mdiv operands out of lemma range')
         slack = nondet(b)
-        if not (_is_int(slack) and slack >= 0):
-            raise CutRangeError('mdiv slack must be a non-negative int')
-        lo = -1
+        if not (_is_int(slack) and 0 <= slack < (1 << 30)):
+            raise CutRangeError('mdiv slack must be an int in [0, 2^30)')
+        t = [-1] + [250 << p for p in range(lim.mdiv_pmax + 1)]      # t[p+1] = 250*2^p, t[0] = -1
+        lo = -1                                                        # lower end (exclusive) of the bucket of m
+        w = t[1] - t[0]                                                # width of the bucket of m
         for p in range(lim.mdiv_pmax + 1):
-            hi = 250 << p
-            if 4 * m <= (b << p):          # exact: ceil(1000 m / b) <= 250 * 2^p
-                return lo + 1 + slack % (hi - lo)
-            lo = hi
-        return lo + 1 + slack
+            above = 4 * m > (b << p)                                   # exact: ceil(1000 m / b) > 250 * 2^p
+            lo = lo + above * (t[p + 1] - t[p])
+            nxt = (t[p + 2] - t[p + 1]) if p < lim.mdiv_pmax else (1 << 31)   # the top bucket is open: width "infinite"
+            w = w + above * (nxt - (t[p + 1] - t[p]))
+        over = slack > w - 1
+        return lo + 1 + slack - over * (slack - (w - 1))               # lo + 1 + min(slack, w - 1)
 
     def fc_ceil_log2_div(x, k):
         # math.ceil(math.log2(x / 1000)) == least p with x <= 1000 * 2^p      [lemma clog2 + libm assumption]
         if not (_is_int(x) and k == 1000):
             raise CutRangeError('clog2 operand not int / divisor not 1000')
-        if not 1 <= x < (1 << lim.clog2_bits):
+        if not (1 <= x < (1 << lim.clog2_bits) and lim.clog2_bits <= 30):
             raise CutRangeError('clog2 operand out of lemma range')
-        for p in range(CLOG2_PLO, CLOG2_PHI + 1):
-            if (x << -p) <= 1000 if p < 0 else x <= (1000 << p):
-                return p
-        raise CutRangeError('clog2 operand above table')
+        p = CLOG2_PLO
+        for q in range(CLOG2_PLO, CLOG2_PHI):
+            p = p + (((x << -q) > 1000) if q < 0 else (x > (1000 << q)))
+        return p
+
+    def fc_pow2_scale(p, k):
+        # int(2**p * 1000) == 1000 * 2^p for an int p in [-3, PHI]      [lemma pow2scale; p < 0 goes through floats]
+        if not (_is_int(p) and k == 1000):
+            raise CutRangeError('pow2scale exponent not int / factor not 1000')
+        if not -3 <= p <= CLOG2_PHI:
+            raise CutRangeError('pow2scale exponent out of lemma range')
+        v = 0
+        for q in range(-3, CLOG2_PHI + 1):
+            v = v + (p == q) * ((1000 << q) if q >= 0 else (1000 >> -q))
+        return v
+
+    def fc_imax(a, b):
+        # max(a, b) on two ints, without a branch: b + [a > b] * (a - b)      [lemma imax, integers]
+        if not (_is_int(a) and _is_int(b)):
+            return max(a, b)
+        return b + (a > b) * (a - b)
 
     def fc_scale(x, k, b):
         # int((x / 1000) * b) == x * b // 1000 for x = 250 * 2^j      [lemma scale]
@@ -117,10 +138,12 @@ def make_helpers(lim):
             raise CutRangeError('scale operands not int / divisor not 1000')
         if b not in lim.scale_Bs:
             raise CutRangeError('scale factor not in lemma table')
+        hit = False
         for j in range(lim.scale_jmax + 1):
-            if x == (250 << j):
-                return x * b // 1000
-        raise CutRangeError('scale operand is not 250 * 2^j')
+            hit = hit | (x == (250 << j))
+        if not hit:
+            raise CutRangeError('scale operand is not 250 * 2^j')
+        return x * b // 1000
 
     def fc_ceil_div(a, d):
         # math.ceil(a / 2^i / 2^j / ...) == -(-a // 2^(i+j+...))      [lemma cdiv]
@@ -132,6 +155,7 @@ def make_helpers(lim):
 
     return {'__fc_rdiv': fc_rdiv, '__fc_rint': fc_rint, '__fc_ceil_mdiv': fc_ceil_mdiv,
             '__fc_ceil_log2_div': fc_ceil_log2_div, '__fc_scale': fc_scale, '__fc_ceil_div': fc_ceil_div,
+            '__fc_pow2_scale': fc_pow2_scale, '__fc_imax': fc_imax,
             '__fc_CutRangeError': CutRangeError}
 
 
@@ -181,6 +205,17 @@ class _Cutter(ast.NodeTransformer):
                     return self._note('rdiv', node, _call('__fc_rdiv', x.left, x.right))
             elif 'rint' in self.rules:
                 return self._note('rint', node, _call('__fc_rint', x))
+        # max(A, B)
+        if (isinstance(f, ast.Name) and f.id == 'max' and len(node.args) == 2 and not node.keywords
+                and not any(isinstance(x, ast.Starred) for x in node.args) and 'imax' in self.rules):
+            return self._note('imax', node, _call('__fc_imax', node.args[0], node.args[1]))
+        # int(2 ** P * 1000)
+        if (isinstance(f, ast.Name) and f.id == 'int' and len(node.args) == 1 and not node.keywords
+                and 'pow2scale' in self.rules):
+            a = node.args[0]
+            if (isinstance(a, ast.BinOp) and isinstance(a.op, ast.Mult) and _is_const(a.right, 1000)
+                    and isinstance(a.left, ast.BinOp) and isinstance(a.left.op, ast.Pow) and _is_const(a.left.left, 2)):
+                return self._note('pow2scale', node, _call('__fc_pow2_scale', a.left.right, a.right))
         # int((X / 1000) * B)
         if (isinstance(f, ast.Name) and f.id == 'int' and len(node.args) == 1 and not node.keywords
                 and 'scale' in self.rules):
@@ -253,7 +288,7 @@ def _div_chain(stmt):
     return stmt.targets[0].id, e.id, cs[::-1]
 
 
-ALL_RULES = ('rdiv', 'rint', 'mdiv', 'clog2', 'scale', 'cdiv')
+ALL_RULES = ('rdiv', 'rint', 'mdiv', 'clog2', 'scale', 'cdiv', 'pow2scale', 'imax')
 
 
 class CutResult:
@@ -491,16 +526,45 @@ def lemma_jobs(rule, lim, timeout_s=120):
                          'Float64: x <= 1000*2^k => x/1000 <= 2^k; x > 1000*2^k => x/1000 >= 2^k(1+2^-31)'))
     elif rule == 'scale':
         for b in lim.scale_Bs:
-            assert b < (1 << 34) and lim.scale_jmax <= 23
+            assert b < (1 << 34) and lim.scale_jmax <= 21
             jobs.append((f'scale B={b} x=250*2^j j<={lim.scale_jmax}', lemma_scale(b, lim.scale_jmax),
                          lemma_scale(b, lim.scale_jmax, False), 'Float64: int((x / 1000) * B) == x*B//1000 for x = 250*2^j'))
     elif rule == 'cdiv':
         for divs in getattr(lim, 'cdiv_divisors', [(1024, 1024, 1024)]):
             jobs.append((f'cdiv {list(divs)} a < 2^{lim.cdiv_bits}', lemma_cdiv(divs, lim.cdiv_bits),
                          lemma_cdiv(divs, lim.cdiv_bits, False), 'Float64: ceil(a / c1 / c2 / ...) == -(-a // (c1*c2*...))'))
+    elif rule == 'pow2scale':
+        for q in (-3, -2, -1):
+            jobs.append((f'pow2scale p={q}', lemma_pow2scale(q), _HDR + '(assert true)\n',
+                         'Float64: int(2**p * 1000) == 1000 >> -p for p in {-3,-2,-1} (p >= 0 is integer arithmetic)'))
+    elif rule == 'imax':
+        jobs.append(('imax', '(set-logic QF_NIA)\n(declare-const a Int)\n(declare-const b Int)\n'
+                     '(assert (not (= (ite (> a b) a b) (+ b (* (ite (> a b) 1 0) (- a b))))))\n',
+                     '(set-logic QF_LIA)\n(declare-const a Int)\n(declare-const b Int)\n(assert (> a b))\n',
+                     'Int: max(a, b) == b + [a > b] * (a - b)'))
     else:
         raise HarnessError(f'no lemma for rule {rule}')
     return jobs
+
+
+def lemma_pow2scale(q):
+    """to_sbv_RTZ(fp.mul(2^q, 1000)) == 1000 / 2^-q for q in {-3,-2,-1} (2^q written as the exact quotient 1 / 2^-q)."""
+    t = _HDR
+    t += f'(define-fun pw () Float64 (fp.div RNE ({_F} RNE {_bv(1)}) ({_F} RNE {_bv(1 << -q)})))\n'
+    t += f'(define-fun r () (_ BitVec 64) ((_ fp.to_sbv 64) RTZ (fp.mul RNE pw ({_F} RNE 1000.0))))\n'
+    t += f'(assert (not (= r {_bv(1000 >> -q)})))\n'
+    return t
+
+
+def libm_pow2_points():
+    """2 ** p for a negative int p is the exactly representable float 2^p (checked concretely; used by pow2scale)."""
+    import fractions
+    n = 0
+    for q in (-3, -2, -1):
+        if fractions.Fraction(2 ** q) != fractions.Fraction(1, 1 << -q):
+            raise HarnessError(f'2**{q} is not exact on this platform')
+        n += 1
+    return n
 
 
 def libm_log2_points():
